@@ -337,7 +337,7 @@ def rule_r3(ctx: Ctx) -> None:
 
 
 def run(ctx: Ctx) -> None:
-    rule_r1_r2(ctx)
-    rule_r3(ctx)
+    ctx.attempt(rule_r1_r2, ctx)
+    ctx.attempt(rule_r3, ctx)
     ctx.assume("the bit-length-set algebra is exact (C01); alignments are powers of two and the delimiter header is a multiple of the alignment (C02)")
     ctx.undecided("numerical equality of the offset sets with the encoder's positions (only the agreement of the traces / terms is decided)")
